@@ -220,7 +220,7 @@ func collectTargets(packages []*model.Package, packagePath string, targetPrefix 
 			if targetPrefix != "" && !strings.HasPrefix(targetLabel.Name, targetPrefix) {
 				continue
 			}
-			if selector.Match(target) {
+			if selector.MatchTarget(target) {
 				targets = append(targets, formatTargetCompletion(targetLabel.String(), targetLabel.Name, isRelativeTarget))
 			}
 		}
@@ -241,7 +241,7 @@ func packageHasMatchingTargets(packages []*model.Package, packagePath string, se
 			continue
 		}
 		for _, target := range packageEntry.Targets {
-			if selector.Match(target) {
+			if selector.MatchTarget(target) {
 				return true
 			}
 		}
